@@ -219,7 +219,7 @@ def run(tier, seed, factor=1):
                 "object maps: forward/backward round trips on all objects <= N, parts inside the children; equivalence paths additionally "
                 "against the Lean composition of the steps' tables; non-trivial = >=3 classes / >=1 object; distinct by config / (rule, form)")
     rnd = random.Random(seed * 1000003 + 7)
-    N = common.scale(tier, 5, 7)
+    N = common.scale(tier, 5, 6)
     outs = specrun.pool_map(spec_worker, [(c, N) for c in speccheck.make_configs(rnd, common.scale(tier, 200, 2500) * factor)])
     specrun.quiet()
     for o in outs:
@@ -231,7 +231,7 @@ def run(tier, seed, factor=1):
             res.traces += 1
         for sig, detail in o["problems"]:
             res.fail(sig, o["cfg"], detail)
-    per = common.scale(tier, 6, 20)
+    per = common.scale(tier, 6, 12)
     jobs = [(seed * 977 + i, per, N) for i in range(common.scale(tier, 48, 300) * factor)]
     fouts = [o for part in specrun.pool_map(form_worker, jobs) for o in part]
     specrun.quiet()
